@@ -6,26 +6,32 @@
    once it is Depth long and the receiver is at rest.  hist is directly the replay script.      *)
 EXTENDS FairQueue, Json
 CONSTANT Depth
-VARIABLES hist, wakes
-gvars == <<vars, hist, wakes>>
+VARIABLES hist, wakes, pollseq
+gvars == <<vars, hist, wakes, pollseq>>
 Snap == [ready |-> {<<e[1], e[2]>> : e \in heap'}, nready |-> Cardinality(heap'), streams |-> streams', waker |-> wslot',
          counter |-> counter', wakes |-> wakes', delivered |-> delivered']
 Inj == pc \in {"idle", "parked", "poll", "l2", "l3"}
 Log(r) == hist' = Append(hist, r)
 Wk == wakes' = wakes + (IF wslot THEN 1 ELSE 0)
-GInit == Init /\ hist = <<>> /\ wakes = 0
+GInit == Init /\ hist = <<>> /\ wakes = 0 /\ pollseq = [k \in Keys |-> <<>>]
+\* pollseq[k]: the tickets of the wakers k's source was polled with, in order: the replay keeps a clone of each and wakes
+\* clone number abs for a StaleFire
+Yields == "no_yield" \notin Dev /\ npend + 1 > Cardinality(streams')
 GNext ==
-  \/ \E k \in Keys : Inj /\ Insert(k) /\ Wk /\ Log([a |-> "Insert", k |-> k])
-  \/ \E k \in Keys : Inj /\ Produce(k) /\ UNCHANGED wakes /\ Log([a |-> "Produce", k |-> k])
-  \/ \E k \in Keys : Inj /\ left[k] <= 1 /\ Close(k) /\ UNCHANGED wakes /\ Log([a |-> "Close", k |-> k])
-  \/ \E k \in Keys : Inj /\ Fire(k) /\ Wk /\ Log([a |-> "Fire", k |-> k])
-  \/ \E k \in Keys : Inj /\ delivered[k] >= 1 /\ Remove(k) /\ UNCHANGED wakes /\ Log([a |-> "Remove", k |-> k])
-  \/ Begin /\ UNCHANGED wakes /\ Log([a |-> "Begin"])
-  \/ L1 /\ UNCHANGED wakes /\ Log([a |-> "L1", res |-> pc', k |-> IF cur' = <<>> THEN "" ELSE cur'[2], snap |-> Snap])
-  \/ PollStream /\ UNCHANGED wakes /\ Log([a |-> "PollStream", res |-> pc'])
-  \/ L2 /\ UNCHANGED wakes /\ Log([a |-> "L2", k |-> cur[2], snap |-> Snap])
-  \/ L3 /\ UNCHANGED wakes /\ Log([a |-> "L3"])
-  \/ Cancel /\ ~notified /\ UNCHANGED wakes /\ Log([a |-> "Cancel"])
+  \/ \E k \in Keys : Inj /\ Insert(k) /\ Wk /\ Log([a |-> "Insert", k |-> k]) /\ UNCHANGED pollseq
+  \/ \E k \in Keys : Inj /\ Produce(k) /\ UNCHANGED wakes /\ Log([a |-> "Produce", k |-> k]) /\ UNCHANGED pollseq
+  \/ \E k \in Keys : Inj /\ left[k] <= 1 /\ Close(k) /\ UNCHANGED wakes /\ Log([a |-> "Close", k |-> k]) /\ UNCHANGED pollseq
+  \/ \E k \in Keys : Inj /\ Fire(k) /\ Wk /\ Log([a |-> "Fire", k |-> k]) /\ UNCHANGED pollseq
+  \/ \E k \in Keys : Inj /\ \E i \in 1..Len(pollseq[k]) : StaleFireT(k, pollseq[k][i]) /\ Wk /\ Log([a |-> "StaleFire", k |-> k, abs |-> i]) /\ UNCHANGED pollseq
+  \/ Inj /\ Exhaust /\ UNCHANGED wakes /\ Log([a |-> "Exhaust"]) /\ UNCHANGED pollseq
+  \/ \E k \in Keys : Inj /\ delivered[k] >= 1 /\ Remove(k) /\ UNCHANGED wakes /\ Log([a |-> "Remove", k |-> k]) /\ UNCHANGED pollseq
+  \/ Begin /\ UNCHANGED wakes /\ Log([a |-> "Begin"]) /\ UNCHANGED pollseq
+  \/ L1 /\ UNCHANGED wakes /\ Log([a |-> "L1", res |-> pc', k |-> IF cur' = <<>> THEN "" ELSE cur'[2], snap |-> Snap]) /\ UNCHANGED pollseq
+  \/ PollStream /\ wakes' = wakes + (IF exh /\ wslot THEN 1 ELSE 0) /\ Log([a |-> "PollStream", res |-> pc', selfwake |-> exh])
+        /\ pollseq' = [pollseq EXCEPT ![cur[2]] = Append(@, cur[1])]
+  \/ L2 /\ UNCHANGED wakes /\ Log([a |-> "L2", k |-> cur[2], snap |-> Snap]) /\ UNCHANGED pollseq
+  \/ L3 /\ wakes' = wakes + (IF Yields /\ heap # {} THEN 1 ELSE 0) /\ Log([a |-> "L3", res |-> pc', snap |-> Snap]) /\ UNCHANGED pollseq
+  \/ Cancel /\ ~notified /\ UNCHANGED wakes /\ Log([a |-> "Cancel"]) /\ UNCHANGED pollseq
 GSpec == GInit /\ [][GNext]_gvars
 AtRest == pc \in {"idle", "parked"}
 Emit == (Len(hist) >= Depth /\ AtRest) => PrintT(<<"REPLAY", ToJson(hist)>>)
